@@ -53,6 +53,9 @@ def build_stream(r, max_input, reverse=False):
         tagno += 1
         tag = b"t%d" % tagno
         verb = r.choice((b"NOOP", b"APPEND inbox", b"SEARCH TEXT", b"LOGIN", b"XFOO arg", b"FETCH 1 (BODY[])", b"STORE 1 +FLAGS (\\Seen)", b"SELECT"))
+        if not reverse and r.random() < 0.06:
+            # one long line (no literal): under the limit it is a command like any other
+            verb = b'SEARCH SUBJECT "' + b"x" * r.choice((60000, 65500, 65536, 70000, 131072, 200000)) + b'"'
         nlit = r.choice((0, 0, 0, 1, 1, 2, 3))
         # a command that exceeds the total size limit (crossed at one of its literals): sent with
         # non-synchronising literals only, so that the client has nothing to wait for once it is refused
@@ -352,7 +355,7 @@ def generate(seed, tier, index, kf):
     reverse = r.random() < 0.3
     return {
         "format": 1, "seed": seed, "world": "B", "stream_seed": r.getrandbits(40), "reverse": reverse,
-        "knobs": {"max_input": r.choice((2048, 4096, 8192, 65536)) if not reverse else 1 << 20},
+        "knobs": {"max_input": r.choice((2048, 4096, 8192, 65536, 262144)) if not reverse else 1 << 20},
         "seg": r.choice(("bytes", "mixed", "mixed", "whole", "coalesce", "big")), "seg_back": r.choice(("whole", "big")) if reverse else "whole",
         "pace": r.random() < 0.5,
         "latency": {"exec": "zero", "db": "zero", "net": r.choice(("zero", "small", "bimodal", "wide"))}, "ops": [], "props": [PROP],
